@@ -192,6 +192,10 @@ class Runtime:
         self.sites = []
 
     def current_site(self):
+        """site of the innermost arm that is executed under a SYMBOLIC guard (that is the `if` which must fork instead)"""
+        for g, site in zip(reversed(self.guards), reversed(self.sites)):
+            if g is not None:
+                return site
         return self.sites[-1] if self.sites else '?'
 
     def active(self):
@@ -468,6 +472,16 @@ class Runtime:
     def in_(self, x, y):
         if isinstance(x, Lookup):
             x = x.materialise()
+        if getattr(x, 'sx_is_str', False) and hasattr(x, 'c'):
+            if isinstance(y, dict):
+                y = list(y.keys())
+            if hasattr(y, '__iter__') and not isinstance(y, str):
+                r = False
+                for e in y:
+                    if isinstance(e, str):
+                        r = bor_b(r, x == e)
+                return r
+            raise Unsupported(f'symbolic text in {type(y).__name__}')
         if isinstance(x, (SInt, SNum)):
             if isinstance(y, dict):
                 y = list(y.keys())
@@ -498,6 +512,8 @@ class Runtime:
     def getitem(self, obj, key):
         if isinstance(key, (int, slice, str)) or key is None:
             return obj[key]
+        if getattr(key, 'sx_is_str', False) and isinstance(obj, dict) and hasattr(key, 'c'):
+            return self._select_dict_text(obj, key)
         if isinstance(key, Lazy):
             key = key.force()
         if isinstance(key, Lookup):
@@ -570,6 +586,27 @@ class Runtime:
                 return obj[concretize(key if isinstance(key, SNum) else key.to_snum())]
         return res
 
+    def _select_dict_text(self, obj, key):
+        """dict with str keys looked up with symbolic text: fork once on presence, then choose by if-then-else (falls back
+        to one fork per key when the values cannot be merged)"""
+        cands = [(k, key == k) for k in obj if isinstance(k, str) and len(k) == len(key)]
+        cands = [(k, c) for k, c in cands if c is not False]
+        present = False
+        for k, c in cands:
+            present = bor_b(present, c)
+        if not bool(present):       # forks
+            raise KeyError(str(key))
+        try:
+            res = obj[cands[-1][0]]
+            for k, c in reversed(cands[:-1]):
+                res = obj[k] if c is True else self.merge(c.term, obj[k], res, 'select')
+            return res
+        except MergeAbort:
+            for k, c in cands:
+                if bool(c):
+                    return obj[k]
+            raise KeyError(str(key))
+
     def _select_dict_tuple(self, obj, key):
         """dict keyed by tuples, looked up with a tuple holding symbolic elements"""
         cands = [k for k in obj if isinstance(k, tuple) and len(k) == len(key)]
@@ -604,7 +641,16 @@ class Runtime:
                     out += list(x)
                 return SBytes(out)
             return sep.join(items)
-        return sep.join(it)
+        items = list(it)
+        if any(getattr(x, 'sx_is_str', False) and hasattr(x, 'c') for x in items):
+            from .strings import SChars
+            out = SChars([])
+            for i, x in enumerate(items):
+                if i and sep:
+                    out = out + sep
+                out = out + x
+            return out
+        return sep.join(items)
 
     # ---- nested defs / pure calls
     def expose(self, qual, fn):
